@@ -427,9 +427,31 @@ def persist_pattern(repo: Repo, rep):
     if p is None:
         rep.undecided("R-PERSIST-PATTERN", "DiscStorage.persist not found")
         return
-    inside = any(isinstance(x, ast.Attribute) and x.attr == "_path" for x in body_nodes(p.node)) or any(isinstance(x, ast.Constant) and isinstance(x.value, str) and "*" in x.value for x in body_nodes(p.node))
+    # what the lookup inside persist() is asked for (alias-resolved): the pattern, not the bare name
+    pcfg = cfg_of(p)
+    inside = False
+    for n_ in pcfg.live:
+        for c_ in node_calls(n_):
+            if isinstance(c_.func, ast.Attribute) and (c_.func.attr.startswith("_lookup") or c_.func.attr == "glob") and c_.args:
+                a_ = c_.args[0]
+                src = resolve_alias(pcfg, n_, a_) if isinstance(a_, ast.Name) else a_
+                if any(isinstance(x, ast.Attribute) and x.attr == "_path" for x in ast.walk(src)) or any(isinstance(x, ast.Constant) and isinstance(x.value, str) and "*" in x.value for x in ast.walk(src)):
+                    inside = True
     if inside:
         rep.ok("R-PERSIST-PATTERN", p, p.node, "persist() looks the pattern of the external up")
+        # the names come from every call of a function named `external` in the test file, also a function of the user: a name that is
+        # no reference is skipped, it does not end the session
+        for x in [y for y in body_nodes(p.node) if isinstance(y, ast.Call) and norm(y.func) == "external"]:
+            guarded = False
+            for a_ in ancestors(x):
+                if isinstance(a_, ast.Try) and any(x is z for s_ in a_.body for z in ast.walk(s_)) and any(h.type is None or any(k in norm(h.type) for k in ("ValueError", "Exception")) for h in a_.handlers):
+                    guarded = True
+                if a_ is p.node:
+                    break
+            if guarded:
+                rep.ok("R-PERSIST-PATTERN", p, x, "a name that is no reference is skipped")
+            else:
+                rep.violation("R-PERSIST-PATTERN", p, x, "persist() parses every name with external(...) unguarded: `external(\"service\")` of a user function of that name in a rewritten test file raises ValueError at session end - internal error, nothing is written", construct="persist:parse-unguarded")
         return
     cg = callgraph(repo)
     calls = [(cf, c_) for cf, c_, how in cg.callers.get(p.key, []) if not cf.module.rel.startswith("@")]
